@@ -22,7 +22,7 @@ Proof. intros H. unfold bw_sink_run, sink_run. rewrite H. reflexivity. Qed.
    Accepted inputs.  Hypothesis: [chunker_ok ck] (the pieces of a region concatenate to the region).
    That at most MAX_ZOOM_LEVELS = 10 levels are written, so that the zoom directory stays inside
    the space write_blank_headers reserves, is proved from the model (Proofs/SinkRefine.v
-   bw_parts_zooms_le; the size lists are cut to 10 since /repo adc453b). *)
+   bw_parts_zooms_le; the size lists are cut to 10 since /repo 3a3ac98). *)
 
 (* The trace has a header operation: operation number [header_index] is one write, at offset 0,
    of the 64-byte common header and the zoom directory, and it begins with the bigWig magic. *)
@@ -265,7 +265,7 @@ Qed.
    The two defects repaired in /repo, on the model of the code as it was (parameters [dbg], [ff]
    of Model/SinkTrace.v calls_info).
 
-   D5 (9e568bc): without the final flush the closing magic is written by the drop of the
+   D5 (3b5992e): without the final flush the closing magic is written by the drop of the
    BufWriter, which discards the error: failing the last write still returns Ok. *)
 Theorem C14_last_flush_refuted :
   count_kind 1 (snd (sink_run None ck_whole false false ieee 0 ex_o ex_sizes ex_input)) = 14%nat
@@ -274,7 +274,7 @@ Theorem C14_last_flush_refuted :
 Proof. vm_compute. repeat split; reflexivity. Qed.
 Print Assumptions C14_last_flush_refuted.
 
-(* D12 (1156b04): with the header-size assertion implemented by a seek (debug builds), the
+(* D12 (ce3b132): with the header-size assertion implemented by a seek (debug builds), the
    64-byte header reaches the destination one operation before the zoom directory; at the crash
    point in between the file opens and advertises one zoom level, of resolution 0 at offset 0,
    where the finished file has resolution 10. *)
